@@ -78,6 +78,12 @@ CLAIMS["C17"] = dict(
   technique="loop variant (phi step) analysis + edge dominance + who-may-write rule for node fields",
   ref="DESIGN.md §3 C17")
 
+CLAIMS["C03"] = dict(
+  text="Structural completeness rules for the twelve listed formats: every bufio.Scanner loop surfaces scanner.Err() after Scan() returned false; a record pending at end of input is still processed (dpkg header returned with io.EOF, apk record without trailing blank line, blank lines end an apk record only when it is non-empty); and in every package-appending loop the decisions after which the current record can no longer be reported are exactly the 60-odd audited omissions (frozen table, rendered by the definition of the tested value), so an added filter / de-duplication / early exit and a removed not-installed filter are both reported. Level 'other': necessary conditions; that exactly the N pairs come out for every layout (CRLF, comments, ordering, merge keys) is value-level and not decided.",
+  note="Trusted: go/ssa; the audited omission table c03_table.go (a behaviour-preserving rewrite of an omission condition has to be re-audited there).",
+  technique="must-pass-through for scanner errors and pending records + enumeration of omission decisions against an audited table",
+  ref="DESIGN.md §3 C03")
+
 NA = {}
 
 
